@@ -28,7 +28,7 @@ AllFilesOnSuccess == exit = "zero" => Cardinality(files) = 4 /\ failAt = "none"
 
 (* ---- option classes ---- *)
 Txt(s) == s   \* text tokens, concretised by the harness: "$default" keeps the tool's default
-Sans == { <<>>, <<"dns">>, <<"ip4">>, <<"ip6">>, <<"dns", "ip4", "ip6", "dns">>, <<"nonascii">>, <<"dns", "nonascii">>, <<"dns-trailing-dot", "ip4-mapped">> }
+Sans == { <<>>, <<"dns">>, <<"ip4">>, <<"ip6">>, <<"dns", "ip4", "ip6", "dns">>, <<"nonascii">>, <<"dns", "nonascii">>, <<"dns-trailing-dot", "ip4-mapped">>, <<"at-sign", "dns">> }   \* "at-sign": user@host is not an IP literal, hence a DNS name
 Countries == { "$default", "printable-all", "printable-question", "nonprintable-gt", "nonprintable-at", "nonascii", "empty" }
 CommonNames == { "$default", "utf8", "empty", "printable-question", "padded", "nbsp-padded", "tab-newline-padded" }   \* white space at either end is part of the name
 Orgs == { "$default", "utf8" }
